@@ -79,6 +79,8 @@ type oReq struct {
 	Cont  string   `json:"cont"`
 	Names []string `json:"names"`
 	Types []string `json:"types"`
+	Ent   int      `json:"ent"`   // by = "entry": NewLens / NewReflector on this (1-based) entry of the listing
+	Close bool     `json:"close"` // the requested type is structurally close to the field's
 	Want  oWant    `json:"want"`
 	Model []string `json:"model"` // outcome of the derivation-as-coded: without / with the repaired checks
 	Core  bool     `json:"core"`
